@@ -176,7 +176,7 @@ structure StepOut where
   added : List Nat     -- indices (into `dsts`) of the added features
   masses : List Nat    -- masses of the added features
   labels : List Nat
-  deriving Repr
+  deriving Repr, DecidableEq
 
 /-- one `FindLinker.next_level` -/
 def flAlgoStep (cfg : Cfg) (st : State) (t : Int) (orc : Oracle) (dsts : List Pos) : StepOut :=
